@@ -797,7 +797,67 @@ pub fn pre_bodies<'tcx>(tcx: TyCtxt<'tcx>) -> Vec<(String, J)> {
     res
 }
 
-pub fn run<'tcx>(tcx: TyCtxt<'tcx>, out_dir: &str, tag: &str, pre: Vec<(String, J)>) {
+/// Attributes of ADT definitions, their variants and fields as written in the (expanded, cfg-stripped) AST.
+/// Keyed by module path so that the rule side can join them with the ADT table.
+pub fn ast_attrs<'tcx>(tcx: TyCtxt<'tcx>) -> J {
+    use rustc_ast::ast;
+    fn attrs_of(attrs: &[ast::Attribute]) -> J {
+        let mut v = Vec::new();
+        for a in attrs {
+            if let ast::AttrKind::Normal(_) = a.kind {
+                v.push(s(rustc_ast_pretty::pprust::attribute_to_string(a)));
+            }
+        }
+        J::A(v)
+    }
+    fn fields_of(vd: &ast::VariantData) -> J {
+        let mut v = Vec::new();
+        for (i, f) in vd.fields().iter().enumerate() {
+            let name = f.ident.map(|x| x.name.to_string()).unwrap_or_else(|| format!("{}", i));
+            v.push(J::O(vec![("name", s(name)), ("attrs", attrs_of(&f.attrs))]));
+        }
+        J::A(v)
+    }
+    fn walk(items: &[Box<ast::Item>], path: &mut Vec<String>, out: &mut Vec<J>) {
+        for it in items {
+            match &it.kind {
+                ast::ItemKind::Mod(_, ident, ast::ModKind::Loaded(inner, ..)) => {
+                    path.push(ident.name.to_string());
+                    walk(inner, path, out);
+                    path.pop();
+                }
+                ast::ItemKind::Struct(ident, _, vd) | ast::ItemKind::Union(ident, _, vd) => {
+                    let mut p = path.clone();
+                    p.push(ident.name.to_string());
+                    out.push(J::O(vec![
+                        ("path", s(p.join("::"))),
+                        ("attrs", attrs_of(&it.attrs)),
+                        ("variants", J::A(vec![J::O(vec![("name", s(ident.name.to_string())), ("attrs", J::A(vec![])), ("fields", fields_of(vd))])])),
+                    ]));
+                }
+                ast::ItemKind::Enum(ident, _, def) => {
+                    let mut p = path.clone();
+                    p.push(ident.name.to_string());
+                    let mut vs = Vec::new();
+                    for v in def.variants.iter() {
+                        vs.push(J::O(vec![("name", s(v.ident.name.to_string())), ("attrs", attrs_of(&v.attrs)), ("fields", fields_of(&v.data))]));
+                    }
+                    out.push(J::O(vec![("path", s(p.join("::"))), ("attrs", attrs_of(&it.attrs)), ("variants", J::A(vs))]));
+                }
+                _ => {}
+            }
+        }
+    }
+    let steal = tcx.resolver_for_lowering();
+    let guard = steal.borrow();
+    let krate = &guard.1;
+    let mut out = Vec::new();
+    let mut path = vec![tcx.crate_name(rustc_hir::def_id::LOCAL_CRATE).to_string()];
+    walk(&krate.items, &mut path, &mut out);
+    J::A(out)
+}
+
+pub fn run<'tcx>(tcx: TyCtxt<'tcx>, out_dir: &str, tag: &str, pre: Vec<(String, J)>, ast_attrs: J) {
     let mut cx = Cx::new(tcx);
     let mut bodies: Vec<J> = Vec::new();
     let mut roots: Vec<Instance<'tcx>> = Vec::new();
@@ -1003,6 +1063,7 @@ pub fn run<'tcx>(tcx: TyCtxt<'tcx>, out_dir: &str, tag: &str, pre: Vec<(String, 
         ("pre_types", pre_types),
         ("pre_bodies", J::A(pre_bodies)),
         ("adts", J::A(adts)),
+        ("ast_attrs", ast_attrs),
         ("impls", J::A(impls)),
         ("fns_nobody", J::A(fns_nobody)),
     ]);
